@@ -123,6 +123,7 @@ type Run struct {
 	stubState map[string]interface{}
 
 	killed      bool
+	mapLocs     map[*MapObj]*Agg
 	reverseMaps bool
 	preempts    int
 	aliases     map[*Agg][]aliasRange
